@@ -49,7 +49,6 @@ PROP = dict(
                "compared by canonical re-encoding, file and body contents by SHA-256 (harness abstraction functions)",
     design_ref="DESIGN.md 4.4",
     driver="c04",
-    race=True,
     trace=dict(module="TraceRoundTrip", cfg="TraceRoundTrip.cfg"),
     rule="case = generated API + a session of 1..7 calls through one Runtime to one server (single calls: long-lived shared server; "
          "sessions: a server built for the case). Items API (6 operations GET/PUT/POST/DELETE/PATCH over templates with 1-3 placeholders) "
